@@ -561,7 +561,34 @@ func (e *Engine) freshSpec(env *Env, fun string, args []Expr) (TV, bool, error) 
 	case "keepsMapLen":
 		// the engine keeps one length array for the maps of all types
 		_, _, lk := e.mapHeapKeys(types.NewMap(types.Typ[types.String], types.Typ[types.Int]))
-		return TV{same(lk), boolT}, true, nil
+		if len(args) == 0 {
+			return TV{same(lk), boolT}, true, nil
+		}
+		// keepsMapLen(m...): every pre-existing map except the listed ones
+		sort := e.heapSorts[lk]
+		cur := env.s.heapGet(lk, sort)
+		var old Term
+		if t, ok := env.old.heap[lk]; ok {
+			old = t
+		} else {
+			old = e.heapInit(lk, sort, false)
+		}
+		if cur.S == old.S {
+			return TV{TTrue, boolT}, true, nil
+		}
+		guard := []Term{Le(Term{"b_r", SInt}, k)}
+		for _, a := range args {
+			t, err := e.evalTerm(env, a)
+			if err != nil {
+				return TV{}, true, err
+			}
+			guard = append(guard, Not(Eq(Term{"b_r", SInt}, t)))
+		}
+		body := fmt.Sprintf("(=> %s (= (select %s b_r) (select %s b_r)))", And(guard...).S, cur.S, old.S)
+		if e.patternUnsafe(cur.S, 0) {
+			return TV{Term{fmt.Sprintf("(forall ((b_r Int)) %s)", body), SBool}, boolT}, true, nil
+		}
+		return TV{Term{fmt.Sprintf("(forall ((b_r Int)) (! %s :pattern ((select %s b_r))))", body, cur.S), SBool}, boolT}, true, nil
 	case "keepsField":
 		tn, err := strArg(0)
 		if err != nil {
